@@ -3,6 +3,12 @@
 
     Members:  Option(key) / Option(key, default=<constant>)     (labrea/option.py 153-215)
               a dataset function reading one or two such options and returning a tagged tuple
+              a dataset function reading one option, with an EFFECT that reads another option:
+                the effect's option is listed by explain() but not by keys() (labrea/computation.py
+                149-171; by design effects are outside the cache key, finding D9) — the one member
+                kind whose keys() and explain() differ on a successful evaluation.  The effect's
+                own option always has a default and a flat key (generator invariant), so the
+                effect itself never fails.
               Value(v)  (an annotated plain attribute, wrapped by the metaclass)
     Exceptions are reduced to the enum the harness reduces Python exceptions to:
     [EKnf k] (a KeyNotFoundError for key k somewhere in the cause chain) or [EType] (TypeError from
@@ -16,6 +22,7 @@ Inductive copt := COption (k : key) (default : option json).
 Inductive cexpr :=
 | COpt (p : copt)
 | CData (tag : N) (a : copt) (b : option copt)
+| CEData (tag : N) (a : copt) (eff : copt)
 | CValue (v : json).
 
 Inductive cval :=
@@ -74,6 +81,7 @@ Definition c_ev (e : cexpr) (o : dict) : result cerr cval :=
   | CValue v => Ok (CJ v)
   | CData t a None => rbind (opt_ev a o) (fun x => Ok (CTag t [x]))
   | CData t a (Some b) => rbind (opt_ev a o) (fun x => rbind (opt_ev b o) (fun y => Ok (CTag t [x; y])))
+  | CEData t a _ => rbind (opt_ev a o) (fun x => Ok (CTag t [x]))
   end.
 
 Definition c_vl (e : cexpr) (o : dict) : option cerr :=
@@ -82,6 +90,7 @@ Definition c_vl (e : cexpr) (o : dict) : option cerr :=
   | CValue _ => None
   | CData _ a None => opt_vl a o
   | CData _ a (Some b) => match opt_vl a o with Some x => Some x | None => opt_vl b o end
+  | CEData _ a _ => opt_vl a o
   end.
 
 Definition c_ks (e : cexpr) (o : dict) : result cerr (list key) :=
@@ -90,6 +99,7 @@ Definition c_ks (e : cexpr) (o : dict) : result cerr (list key) :=
   | CValue _ => Ok []
   | CData _ a None => opt_ks a o
   | CData _ a (Some b) => rbind (opt_ks a o) (fun x => rbind (opt_ks b o) (fun y => Ok (x ++ y)%list))
+  | CEData _ a _ => opt_ks a o
   end.
 
 Definition c_ex (e : cexpr) (o : dict) : result cerr (list key) :=
@@ -98,6 +108,7 @@ Definition c_ex (e : cexpr) (o : dict) : result cerr (list key) :=
   | CValue _ => Ok []
   | CData _ a None => opt_ex a o
   | CData _ a (Some b) => rbind (opt_ex a o) (fun x => rbind (opt_ex b o) (fun y => Ok (x ++ y)%list))
+  | CEData _ a eff => rbind (opt_ex a o) (fun x => rbind (opt_ex eff o) (fun y => Ok (x ++ y)%list))
   end.
 
 Definition centry := entry cexpr cval.
